@@ -126,6 +126,8 @@ impl Cfg {
         let mut nodes = Vec::new();
         let mut current_labels = HashSet::new();
         let mut all_labels = HashSet::new();
+        // labels met in the data segment since the last piece of data
+        let mut data_segment_labels = Vec::new();
 
         let label_names = old_nodes.label_names();
         let call_names = {
@@ -162,6 +164,9 @@ impl Cfg {
             match node {
                 ParserNode::Label(s) => {
                     current_labels.insert(s.name.clone());
+                    if segment == Segment::Data {
+                        data_segment_labels.push(s.name.clone());
+                    }
 
                     // Check for duplicate labels
                     if !all_labels.insert(s.name.clone()) {
@@ -173,6 +178,23 @@ impl Cfg {
                 }
                 ParserNode::Directive(x) if x.dir == DirectiveType::TextSection => {
                     segment = Segment::Text;
+                }
+                // A label written in the data segment in front of a piece
+                // of data names that data. It must not stay pending until
+                // the next instruction: the label of a word would become a
+                // label - and, next to a called label, a name - of whatever
+                // function happens to follow the data.
+                ParserNode::Directive(x)
+                    if matches!(
+                        x.dir,
+                        DirectiveType::Data(..)
+                            | DirectiveType::Ascii { .. }
+                            | DirectiveType::Space(_)
+                    ) =>
+                {
+                    for label in data_segment_labels.drain(..) {
+                        current_labels.remove(&label);
+                    }
                 }
                 // Ignore other types of directives
                 ParserNode::Directive(_) => {}
